@@ -9,12 +9,12 @@ func init() {
 		NotDecided: "equality of the stored row set with the input row set, key order, de-duplication correctness, export fidelity (value-dependent).",
 	}
 	props["C06"] = &propSpec{
-		Rules:      []string{"C06-c"},
-		Decides:    "16-bit string lengths are bounded by ≤ 65535 before narrowing and over-limit values are rejected by an error (C06-c).",
+		Rules:      []string{"C06-a", "C06-b", "C06-c", "C06-d"},
+		Decides:    "content addressing: every content-addressed store uses the hash of the bytes it was given, and callers of SaveCompressedBlock pass matching content/compressed pairs (C06-a); raw store mutations only from pkg/objects (C06-b); 16-bit string lengths are bounded by ≤ 65535 before narrowing and over-limit values are rejected by an error (C06-c); writer and reader label tables agree (C06-d).",
 		NotDecided: "decode(encode(x)) = x for all x; the packfile varint header arithmetic.",
 	}
 	props["C07"] = &propSpec{
-		Rules:      []string{"C07-a", "C07-b", "C07-c"},
+		Rules:      []string{"C07-a", "C07-b", "C07-c", "C07-d", "C06-a"},
 		Decides:    "the receiver's validation and ordering mechanisms: blocks validated before being stored (C07-a), no commit stored while a parent is missing (C07-b), rebuilt block indices compared with the table's recorded sums (C07-c), sender pushes blocks before table before commit (C07-d), blocks stored under the hash of the decoded content (C07-e).",
 		NotDecided: "byte identity of source and destination stores; packfile splitting arithmetic.",
 	}
@@ -72,5 +72,15 @@ func init() {
 		Rules:      []string{"C05-a"},
 		Decides:    "column-layout consistency of the merge result pipeline: rows and key positions that reach the result sorter are in the merged layout, never raw base-table rows or base key positions (C05-a).",
 		NotDecided: "the cell-wise resolution rules, conflict marking, commutativity, keyless tables and renamed columns (value-dependent).",
+	}
+	props["C08"] = &propSpec{
+		Rules:      []string{"C08-a", "C08-b"},
+		Decides:    "one clause only: wants are accepted only after the reachability check succeeded (C08-a) and that check walks from an unfiltered ref listing (C08-b).",
+		NotDecided: "closedness, parent-first order, minimality, depth selection, polynomial termination — all statements about DAG values.",
+	}
+	props["C11"] = &propSpec{
+		Rules:      []string{"C11-a", "C11-b", "C11-c"},
+		Decides:    "'whatever the commit timestamps say' for the ancestor test: Commit.Time influences only the ordering of the frontier (C11-a); a negative answer is given only when the frontier is exhausted (C11-b); every parent is offered to the frontier (C11-c).",
+		NotDecided: "correctness of SeekCommonAncestor's lock-step elimination; visit-exactly-once (graph-valued).",
 	}
 }
